@@ -260,7 +260,8 @@ def remove_last_whitespace(context, line):
     # box to align the stripped text with the right edge of the box.
     if box.pango_layout.first_line_direction % 2:
         for child in line.children:
-            child.translate(dx=-space_width, ignore_floats=True)
+            if not child.is_floated():
+                child.translate(dx=-space_width, ignore_floats=True)
 
     for ancestor in ancestors:
         ancestor.width -= space_width
